@@ -401,6 +401,13 @@ def search(ctx):
             measured['duplicate_value_paths_failing'] += dup
             fails.append({'class': classify(segs), 'what': f[0], 'input': {'path': path_json(closed, segs)}, 'observed': f,
                           'expected': 'every resulting segment monotone in x and y up to 0.06% of the original extent; same curve, order, start, end, closedness, nodes'})
+    # ask, edit the segment in place (round(), item assignment, in-place Point mutation), ask again
+    for _ in range(ctx.n(60, 1000)):
+        fam = rng.choice(FAMS)
+        sh, s0 = edge(rng, fam, fam_point(rng, fam), fam_point(rng, fam), rng.choice(['cubic', 'cubic', 'quad', 'cubic-lin']))
+        ff = gen.freshness(rng, s0, {'findExtremes': lambda x: x.findExtremes(), 'bounds': lambda x: x.bounds()})
+        ev += 1; dist['stale-state'] = dist.get('stale-state', 0) + 1
+        if ff: fails.append({'class': 'C03-stale-state', 'what': ff[0], 'input': {'segment': gen.seg_json(s0)}, 'observed': ff[:3], 'expected': 'the answers of a freshly constructed segment'})
     # asking must not change later answers: findExtremes(inflections=True) (and bounds / addExtremes users) first, then findExtremes()
     for _ in range(ctx.n(60, 1000)):
         fam = rng.choice(FAMS)
